@@ -1,4 +1,5 @@
 import Rbacx.Model.Value
+import Rbacx.Model.Oracle
 /-
   Rbacx.Model.PyLib — the handful of Python operations that the source-to-Lean translator
   (`harness/pytolean.py`) targets.  Every Python value is a `PyVal` (tuples are lists); each
@@ -105,6 +106,42 @@ def strOf : PyVal → PyVal
   | .bool false => .str "False"
   | .int n => .str (toString n)
   | _ => .str "<repr>"
+
+/-- `str(x)` with CPython's text for floats, containers and datetimes supplied by the oracle (`Oracle.pyStr`: str / None / bool / int
+    are rendered as above, everything else is `o.strOf`).  Used by the translated target matcher, which is handed the same `Oracle`
+    as the model. -/
+def strO (o : Oracle) (x : PyVal) : PyVal := .str (o.pyStr x)
+
+/-- `bool(x)` -/
+def boolOf (x : PyVal) : PyVal := .bool x.truthy
+
+/-- `all(f(x) for x in it)` -/
+def allOf (it : PyVal) (f : PyVal → PyVal) : PyVal := .bool ((iter it).all fun x => (f x).truthy)
+
+/-- `a in s` for a set `s` given by the list of its members (`{e for x in it}`, `{a, b}`, `set(it)`; the translator emits this only
+    for a set that is the right operand of `in` / `not in`): membership by `==`.  CPython looks the hash up first; for the hashable
+    JSON values (str, int, float, bool, None) equal values have equal hashes, so that is the same test.  A list or dict MEMBER makes
+    CPython raise TypeError (unhashable) while the set is built — not represented here: the translated source must exclude it
+    (`match_resource` builds sets of `str(x)` results, and `set(allowed)` only behind `all(isinstance(x, str) for x in allowed)`). -/
+def inSet (members : List PyVal) (a : PyVal) : PyVal := .bool (members.any fun y => pyEq y a)
+
+/-- `d.get(k)` with a key that is a value: a non-string key is in no JSON dict -/
+def getV (d k : PyVal) : PyVal :=
+  match k with
+  | .str s => d.get s
+  | _ => PyVal.none
+
+/-- the pairs `d.items()` iterates over, in insertion order (CPython raises AttributeError for a non-dict; the translated source
+    guards with `isinstance(d, dict)`) -/
+def items : PyVal → List (PyVal × PyVal)
+  | .dict kvs => kvs.map fun kv => (.str kv.1, kv.2)
+  | _ => []
+
+/-- `for k, v in d.items(): <body>` followed by `<rest>`, where the body may `return` and carries no state from one iteration to the
+    next: `body k v = some x` means the iteration returned `x`, `none` that it ran to its end.  The first returned value in
+    insertion order, else the value of the statements after the loop. -/
+def forItemsRet (d : PyVal) (body : PyVal → PyVal → Option PyVal) (rest : PyVal) : PyVal :=
+  ((items d).findSome? fun kv => body kv.1 kv.2).getD rest
 
 def eq (a b : PyVal) : PyVal := .bool (pyEq a b)
 def ne (a b : PyVal) : PyVal := .bool (!pyEq a b)
